@@ -91,7 +91,7 @@ var _ *pb.SharedGroupProposal
 //@ func field:storage/raft.RaftGroup.processSnapshotFn
 //@ props C03 C05
 //@ assume
-//@ modifies * except type RaftGroup.raftLeaderId; type RaftGroup.transport; type RaftGroup.raft; type RaftGroup.wal; type RaftGroup.processFn; type RaftGroup.processSnapshotFn; type RaftGroup.snapshotFn; type RaftGroup.ctx; type RaftGroup.log; type RaftGroup.id; type RaftGroup.raftConfState; type RaftTransport.nodeId
+//@ modifies * except type RaftGroup.raftLeaderId; type RaftGroup.transport; type RaftGroup.raft; type RaftGroup.wal; type RaftGroup.processFn; type RaftGroup.processSnapshotFn; type RaftGroup.snapshotFn; type RaftGroup.ctx; type RaftGroup.log; type RaftGroup.id; type RaftGroup.raftConfState; type RaftTransport.nodeId; set catalogue
 //@ func field:storage/raft.RaftGroup.snapshotFn
 //@ props C03 C05
 //@ assume
@@ -203,7 +203,7 @@ var _ *pb.SharedGroupProposal
 //@ end
 //@ requires [C14 consumers-registered] wfGroup(this)
 //@ ensures [C03 started-iff-ok] (started == 1) == isnil(ret)
-//@ modifies *
+//@ modifies * except set catalogue
 
 // C03: a local snapshot is labelled with exactly the applied index it was asked for, and carries the bytes snapshotFn produced
 // on this very goroutine (no `go` in between).
